@@ -187,6 +187,26 @@ impl<'a, R: 'a + Read> CompressionLayerReader<'a, R> {
             .is_none_or(|sizes_info| uncompressed_pos < sizes_info.max_uncompressed_pos())
     }
 
+    /// Refuse a compressed block using the "large window" extension of brotli
+    /// (not part of RFC 7932, never produced by the writer): its stream header
+    /// can ask for a window, hence a buffer, of up to 1 GiB
+    ///
+    /// `inner` must be at the start of the compressed block, and is left there
+    fn refuse_large_window<S: Read + Seek>(inner: &mut S) -> Result<(), Error> {
+        let mut first = [0u8; 1];
+        if inner.read(&mut first)? == 1 {
+            inner.seek(SeekFrom::Current(-1))?;
+            if first[0] & 0x7f == 0x11 {
+                return Err(io::Error::new(
+                    io::ErrorKind::InvalidData,
+                    "Brotli large window streams are not supported",
+                )
+                .into());
+            }
+        }
+        Ok(())
+    }
+
     /// Instantiate a new decompressor at position `uncompressed_pos`
     /// `uncompressed_pos` must be a compressed block's starting position
     fn new_decompressor_at<S: Read + Seek>(
@@ -377,8 +397,9 @@ impl<'a, R: 'a + Read + Seek> Read for CompressionLayerReader<'a, R> {
                         return Err(err.into());
                     }
                 };
-                if let Err(err) =
-                    self.sync_inner_with_uncompressed_pos(&mut inner, self.underlayer_pos)
+                if let Err(err) = self
+                    .sync_inner_with_uncompressed_pos(&mut inner, self.underlayer_pos)
+                    .and_then(|()| Self::refuse_large_window(&mut inner))
                 {
                     self.state = CompressionLayerReaderState::Ready(inner);
                     return Err(err.into());
@@ -482,8 +503,9 @@ impl<R: Read + Seek> Seek for CompressionLayerReader<'_, R> {
                             self.underlayer_pos = pos;
                             return Ok(pos);
                         }
-                        if let Err(err) =
-                            self.sync_inner_with_uncompressed_pos(&mut inner, rounded_pos)
+                        if let Err(err) = self
+                            .sync_inner_with_uncompressed_pos(&mut inner, rounded_pos)
+                            .and_then(|()| Self::refuse_large_window(&mut inner))
                         {
                             self.state = CompressionLayerReaderState::Ready(inner);
                             return Err(err.into());
@@ -924,7 +946,7 @@ impl<'a, R: 'a + Read> Read for CompressionLayerFailSafeReader<'a, R> {
                     cache: vec![0u8; FAIL_SAFE_BUFFER_SIZE],
                     read_offset: 0,
                     cache_filled_offset: 0,
-                    state: Box::new(BrotliState::new(
+                    state: Box::new(BrotliState::new_strict(
                         StandardAlloc::default(),
                         StandardAlloc::default(),
                         StandardAlloc::default(),
@@ -1035,7 +1057,7 @@ impl<'a, R: 'a + Read> Read for CompressionLayerFailSafeReader<'a, R> {
                             // The cache is now at the actual start of the new block
 
                             // Reset others
-                            state = Box::new(BrotliState::new(
+                            state = Box::new(BrotliState::new_strict(
                                 StandardAlloc::default(),
                                 StandardAlloc::default(),
                                 StandardAlloc::default(),
